@@ -863,7 +863,7 @@ def binary(out: hlib.RecWriter, stats: dict) -> None:
     keys = sorted(before)
     rng.shuffle(keys)
     if not thorough:
-        keys = [k for k in keys if k.startswith('verif_bin_')] + keys[:400]
+        keys = list(dict.fromkeys([k for k in keys if k.startswith('verif_bin_')] + [CBASE] + keys[:400]))
     for key in keys:
         p = before[key]
         try:
